@@ -31,6 +31,7 @@ import (
 	rlutil "github.com/kubewharf/kubegateway/pkg/ratelimiter/util"
 
 	"verif.local/harness/internal/vio"
+	"verif.local/harness/sched"
 )
 
 // ---------------- gate ----------------
@@ -40,6 +41,7 @@ type gate struct {
 	dead    bool            // the store "process" crashed: every call fails
 	faults  map[string][]string // "verb/name" -> queue of outcomes for the next calls: notfound|conflict|transient
 	holdSync bool           // block Update/Create calls that do not come from a driver operation
+	holdAfterDelete bool    // block every Delete call AFTER the API has applied it (the caller has not yet seen it return)
 	held    []chan struct{} // blocked calls
 	heldN   int
 	crashAt int             // crash before the n-th API call from now (0 = off)
@@ -131,7 +133,18 @@ func (c *gatedConds) Delete(ctx context.Context, name string, opts metav1.Delete
 	if err := c.g.pass("delete", name); err != nil {
 		return err
 	}
-	return c.RateLimitConditionInterface.Delete(ctx, name, opts)
+	err := c.RateLimitConditionInterface.Delete(ctx, name, opts)
+	c.g.mu.Lock()
+	if c.g.holdAfterDelete && !c.g.dead {
+		ch := make(chan struct{})
+		c.g.held = append(c.g.held, ch)
+		c.g.heldN++
+		c.g.mu.Unlock()
+		<-ch
+		return err
+	}
+	c.g.mu.Unlock()
+	return err
 }
 func (c *gatedConds) Get(ctx context.Context, name string, opts metav1.GetOptions) (*proxyv1alpha1.RateLimitCondition, error) {
 	if err := c.g.pass("get", name); err != nil {
@@ -157,6 +170,11 @@ type step struct {
 	Ms     int      `json:"ms,omitempty"`
 	At     int      `json:"at,omitempty"` // crash: before the at-th API call from now (0: right now)
 	Shard  int      `json:"shard,omitempty"`
+	// race: two operations run as procs of package sched on the INSTRUMENTED store (sync / atomic operations of
+	// store/k8s and store/local are scheduling points); Schedule says who runs up to its next synchronisation operation
+	A        *step `json:"a,omitempty"`
+	B        *step `json:"b,omitempty"`
+	Schedule []int `json:"schedule,omitempty"`
 }
 
 type scenario struct {
@@ -329,6 +347,11 @@ func runScenario(t *testing.T, sc scenario) []ev {
 				opAsync(func() error { return cur.Stop() }, func(e string) {
 					add(ev{"k": "ack", "op": "stop", "ok": e == "", "err": e})
 				})
+			case "flush":
+				cur := st
+				opAsync(func() error { return cur.Flush() }, func(e string) {
+					add(ev{"k": "ack", "op": "flushed", "ok": e == "", "err": e})
+				})
 			case "sleep":
 				time.Sleep(time.Duration(s.Ms) * time.Millisecond)
 				settle()
@@ -354,11 +377,65 @@ func runScenario(t *testing.T, sc scenario) []ev {
 					g.mu.Unlock()
 				}
 				add(ev{"k": "holdsync", "blocked": n})
+			case "race":
+				cur := st
+				runOp := func(o *step) (string, string) {
+					var err error
+					switch o.K {
+					case "save":
+						err = cur.Save(o.Up, cond(o.N, o.Up, o.V))
+					case "delete":
+						err = cur.Delete(o.Up, o.N)
+					case "delup":
+						err = cur.DeleteUpstream(o.Up)
+					case "flush":
+						err = cur.Flush()
+					case "stop":
+						err = cur.Stop()
+					}
+					if err != nil {
+						return o.K, err.Error()
+					}
+					return o.K, ""
+				}
+				errs := make([]string, 2)
+				ops := []*step{s.A, s.B}
+				sc1 := sched.New()
+				for i := range ops {
+					i := i
+					sc1.Go(i+1, func() { _, errs[i] = runOp(ops[i]) })
+				}
+				if !sc1.Run(s.Schedule, nil, 400000) {
+					t.Fatalf("race did not finish")
+				}
+				sc1.Close()
+				for i, o := range ops {
+					// (the two acknowledgements are recorded after both operations have returned; the pairs are chosen so that their
+					// obligations do not depend on which of the two took effect first)
+					e := ev{"k": "ack", "op": o.K, "n": o.N, "up": o.Up, "v": o.V, "ok": errs[i] == "", "err": errs[i], "foreign": false, "local": int32(0)}
+					if o.K == "save" {
+						if c, err := cur.Get(o.Up, o.N); err == nil {
+							e["local"] = val(c)
+						}
+						e["foreign"] = rlutil.GetShardID(o.Up, sc.Shards) != sc.Shard
+					}
+					if o.K == "flush" {
+						e["op"] = "flushed"
+					}
+					add(e)
+				}
+			case "holdafterdelete":
+				// the next deletes are held right after the API has applied them: the store has not yet dropped its own copy
+				g.mu.Lock()
+				g.holdAfterDelete = true
+				g.mu.Unlock()
+				add(ev{"k": "holdafterdelete"})
 			case "release":
 				g.mu.Lock()
 				held := g.held
 				g.held = nil
 				g.holdSync = false
+				g.holdAfterDelete = false
 				g.mu.Unlock()
 				for _, ch := range held {
 					close(ch)
